@@ -76,6 +76,40 @@ Proof.
   intros I L K. destruct (E_cnt _ I e) as [A B]. rewrite K in B. apply (E_pop0 _ I e L). lia.
 Qed.
 
+(* the kernel-half count when one kernel half moves *)
+Lemma cntif_kpc_upd s e p a0 : e < nexte s ->
+  cntif (fun i => Nat.eqb (earm s i) a0 && kact4 (upd (kpc s) e p i)) (nexte s) + (if Nat.eqb (earm s e) a0 && kact4 (kpc s e) then 1 else 0)
+  = cntif (fun i => Nat.eqb (earm s i) a0 && kact4 (kpc s i)) (nexte s) + (if Nat.eqb (earm s e) a0 && kact4 p then 1 else 0).
+Proof.
+  intros L.
+  pose proof (cntif_set (fun i => Nat.eqb (earm s i) a0 && kact4 (kpc s i)) (fun i => Nat.eqb (earm s i) a0 && kact4 (upd (kpc s) e p i)) (nexte s) e L) as X.
+  cbv beta in X. rewrite upd_eq in X. apply X. intros i N. rewrite upd_neq by exact N. reflexivity.
+Qed.
+
+(* the queue as the invariant sees it, after a push by an arm or a kernel half (the owner does not move) *)
+Lemma qall_app_eq s y :
+  match opc s with P4t => ostash s :: evq s ++ [y] | _ => evq s ++ [y] end = qall s ++ [y].
+Proof. unfold qall. destruct (opc s); reflexivity. Qed.
+Lemma qall_fold s : match opc s with P4t => ostash s :: evq s | _ => evq s end = qall s.
+Proof. reflexivity. Qed.
+
+Lemma NoDup_snoc {X} (l : list X) x : NoDup l -> ~ In x l -> NoDup (l ++ [x]).
+Proof.
+  induction l as [|y l IH]; cbn; intros N NI; [constructor; [intros []|constructor]|].
+  inversion N; subst. constructor.
+  - rewrite in_app_iff. cbn. intros [A|[A|[]]]; [contradiction | subst; apply NI; left; reflexivity].
+  - apply IH; [assumption | intros A; apply NI; right; exact A].
+Qed.
+
+(* the number of arms past their cnt.fetch_sub when one arm moves *)
+Lemma cntif_pc_upd s a p : a < nexta s ->
+  cntif (fun i => decd (upd (pc s) a p i)) (nexta s) + (if decd (pc s a) then 1 else 0)
+  = cntif (fun i => decd (pc s i)) (nexta s) + (if decd p then 1 else 0).
+Proof.
+  intros L. pose proof (cntif_set (fun i => decd (pc s i)) (fun i => decd (upd (pc s) a p i)) (nexta s) a L) as X.
+  cbv beta in X. rewrite upd_eq in X. apply X. intros i N. rewrite upd_neq by exact N. reflexivity.
+Qed.
+
 Ltac facts I :=
   pose proof (A_ex _ I) as QAex; pose proof (E_ex _ I) as QEex; pose proof (B_fr _ I) as QBfr;
   pose proof (A_new _ I) as QAnew; pose proof (E_new _ I) as QEnew; pose proof (I_tot _ I) as QItot;
